@@ -276,8 +276,10 @@ fn body_prefix<const B: usize, const L: usize>(c: &Case, rec: &mut Rec) -> R {
         rec.nontrivial(&(a0, a1, c.n[2], c.n[3], &c.l[0], &c.l[1]));
     }
     rec.sample(|| json!({"a0": format!("{a0:#x}"), "a1": format!("{a1:#x}"), "extension_bits": c.n[2], "A": hex(&ea), "B": hex(&eb), "matrix": format!("{m:?}")}));
-    // entries stay below 2^32 (the domain in which compose cannot overflow)
-    rec.ensure("from_u64_prefix", "entry_too_large", m.0 < 1 << 32 && m.1 < 1 << 32 && m.2 < 1 << 32 && m.3 < 1 << 32, || format!("{m:?}"))?;
+    // entries below 2^32 is the domain in which compose cannot overflow (an implementation fact, not
+    // part of the property: only counted, and compose is only checked inside that domain)
+    let small_entries = m.0 < 1 << 32 && m.1 < 1 << 32 && m.2 < 1 << 32 && m.3 < 1 << 32;
+    rec.class_if(!small_entries, "prefix_matrix_entry>=2^32");
     // valid on the prefix itself and on every generated extension
     matrix_valid(rec, "from_u64_prefix", &m, &u(a0), &u(a1))?;
     let after = matrix_valid(rec, "from_u64_prefix(extension)", &m, &ea, &eb)?;
@@ -305,7 +307,8 @@ fn body_prefix<const B: usize, const L: usize>(c: &Case, rec: &mut Rec) -> R {
         if bl >= 64 && !d1.is_zero() {
             let (b0, b1) = ((&c1 >> (bl - 64)).to_u64().unwrap(), (&d1 >> (bl - 64)).to_u64().unwrap());
             let second = rec.no_panic("from_u64_prefix", catch(|| M::from_u64_prefix(b0, b1)))?;
-            if second != M::IDENTITY {
+            let second_small = second.0 < 1 << 32 && second.1 < 1 << 32 && second.2 < 1 << 32 && second.3 < 1 << 32;
+            if second != M::IDENTITY && small_entries && second_small {
                 rec.class("compose_checked");
                 let (c2, d2) = apply_exact(&second, &c1, &d1);
                 let composed = rec.no_panic("compose", catch(|| second.compose(m)))?;
